@@ -142,9 +142,17 @@ TrUpd3 ==
   /\ UNCHANGED uni
 
 \* full state comparison
+\* the kxq0 / kxq1 fields of a register-mode sketch (logged as integers kxq0 * 2^31, kxq1 * 2^63)
+KxqOK(st, e) ==
+  (st.mode = "arr" /\ "kx0" \in DOMAIN e) =>
+     \E h \in {Histogram(st)} :                 \* (bound once: a LET body is re-evaluated at each use)
+       /\ [i \in 1..4 |-> e.kx0[i]] = Kxq0Of(h)
+       /\ [i \in 1..4 |-> e.kx1[i]] = Kxq1Of(h)
+
 TrChk ==
   /\ IsEv("Chk")
   /\ (On("C02") \/ On("C03")) => Full(obj[Ev.id]) = Ev.st
+  /\ (On("C01") \/ On("C02") \/ On("C03")) => KxqOK(obj[Ev.id], Ev)
   /\ On("C12") => ImgOK(obj[Ev.id], Ev)
   /\ ObsOK(obj[Ev.id], Ev.o)
   /\ UNCHANGED <<obj, uni>>
